@@ -71,7 +71,8 @@ Definition check_driver (c : dcase) : N :=
 
 (** the outermost layer: [connect_and_sync] against [handle_connection] over two real endpoints;
     what is done to a side beforehand: 0 nothing, 1 sync disabled, 2 replica closed, 3 actor
-    stopped, 4 (acceptor) the accept callback declines *)
+    stopped, 4 (acceptor) the accept callback declines, 5 the actor is shut down while the session runs
+    (the shutdown request is issued together with the session) *)
 Inductive case :=
   | Drv (d : dcase)
   | Net (initiator acceptor : N) (hung acceptor_panicked initiator_ok acceptor_ok : bool)
@@ -82,10 +83,12 @@ Definition check (c : case) : N :=
   | Drv d => check_driver d
   | Net fa fb hung bp aok bok ac bc =>
       let healthy := (fa =? 0) && (fb =? 0) in
+      (* 5 = the actor is shut down while the session runs: the session may still complete before it *)
+      let surely_broken := negb ((fa =? 0) || (fa =? 5)) || negb ((fb =? 0) || (fb =? 5)) in
       let m2 :=
         negb hung && negb bp                                   (* both calls return, nobody panics *)
         && (negb healthy || (aok && bok))                      (* nothing wrong on either side: both succeed *)
-        && (negb (aok && bok) || healthy)                      (* both succeed only if nothing was wrong *)
+        && (negb (aok && bok) || negb surely_broken)           (* both succeed only if nothing was wrong *)
         && (negb (aok && bok) || ((snd ac =? fst bc) && (fst ac =? snd bc))) in   (* counters mirror *)
       bit (negb m2) 2
   end.
